@@ -66,3 +66,35 @@ package pointindex
 //@   ensures[C09] (result == nil) == inGrid(ix, px, py)
 //@   ensures[C09] result != nil ==> unchanged(ix.quadrants) && typeIs(result, "pointindex.OutsideGridError")
 //@   ensures wfIndex(ix)
+
+//@ macro coordOK(pt) = 0 - 800000000 < pt[0] && pt[0] < 800000000 && 0 - 800000000 < pt[1] && pt[1] < 800000000
+//@ macro inGridF(ix, pt) = inGrid(ix, trunc(pt[0] * 10000000000), trunc(pt[1] * 10000000000))
+//@ macro allCoordsOK(polygon) = forall(a, 0, len(polygon), forall(b, 0, len(polygon[a]), coordOK(polygon[a][b])))
+//@ macro allInGrid(ix, polygon) = forall(a, 0, len(polygon), forall(b, 0, len(polygon[a]), inGridF(ix, polygon[a][b])))
+
+// C09: InsertPolygon succeeds exactly when every vertex of every ring lies in the half-open grid.
+// The first loop only sums ring lengths into a capacity hint for make(map, n) and is not verified (havoc).
+//@ func (*PointIndex).InsertPolygon
+//@   prelude arith
+//@   requires wfIndex(ix) && allCoordsOK(polygon)
+//@   modifies ix.quadrants
+//@   loop ring havoc
+//@   loop level
+//@     invariant level <= ix.deepestLevel + 1 && wfIndex(ix)
+//@     decreases ix.deepestLevel + 1 - level
+//@   loop ring#2 as r
+//@     invariant 0 - 1 <= r && r < len(polygon) && wfIndex(ix)
+//@     invariant forall(a, 0, r + 1, forall(b, 0, len(polygon[a]), inGridF(ix, polygon[a][b])))
+//@     decreases len(polygon) - r
+//@   loop vertex as v
+//@     invariant 0 - 1 <= r && r + 1 < len(polygon) && wfIndex(ix)
+//@     invariant 0 - 1 <= v && v < len(polygon[r + 1])
+//@     invariant forall(a, 0, r + 1, forall(b, 0, len(polygon[a]), inGridF(ix, polygon[a][b])))
+//@     invariant forall(b, 0, v + 1, inGridF(ix, polygon[r + 1][b]))
+//@     decreases len(polygon[r + 1]) - v
+//@   witness wa = r + 1
+//@   witness wb = v + 1
+//@   ensures[C09] result == nil ==> allInGrid(ix, polygon)
+//@   ensures[C09] result != nil ==> 0 <= wa && wa < len(polygon) && 0 <= wb && wb < len(polygon[wa]) && !inGridF(ix, polygon[wa][wb])
+//@   ensures[C09] result != nil ==> typeIs(result, "pointindex.OutsideGridError")
+//@   ensures wfIndex(ix)
